@@ -592,7 +592,7 @@ pub fn run(ctx: &mut Ctx) {
 		let mut r = Rng::for_case(ctx.seed, 303, i);
 		ctx.eval();
 		crate::monitors::set_current(ctx, "burst", i, "same-interval state commands", false);
-		let res = super::guarded(|| same_interval_case(&mut r));
+		let res = super::guarded(|| same_interval_case(&mut r).and_then(|_| idle_clock_case(&mut r)).and_then(|_| paused_track_case(&mut r)));
 		crate::monitors::clear_current();
 		match res {
 			Ok(Ok(())) => {
@@ -711,6 +711,153 @@ fn same_interval_case(r: &mut Rng) -> Result<(), String> {
 			return Err(format!("commands [{}] (fade lengths in chunks) issued to one sound between two callbacks: the state then went {:?}; once all commands have been consumed only fades completing can change it", names.join(", "), trace));
 		}
 		st = n;
+	}
+	Ok(())
+}
+
+/// A clock start time (the sound's own, or the one given to resume_at) on a clock that is NOT running - never started,
+/// paused after passing the time, or stopped (time back at zero): "when the clock reaches the time" needs a running clock,
+/// so the sound waits (silent, position frozen, WaitingToResume for resume_at) and starts once the clock is started.
+fn idle_clock_case(r: &mut Rng) -> Result<(), String> {
+	let mut rig = Rig::simple(SR, CHUNK);
+	let mut clock: ClockHandle = rig.mgr.add_clock(ClockSpeed::TicksPerSecond(1.0 / chunk_dt())).map_err(|_| "clock")?;
+	let variant = r.below(3);
+	let k = r.usize_in(1, 6);
+	let what = match variant {
+		0 => "never started".to_string(),
+		1 => {
+			clock.start();
+			for _ in 0..k {
+				rig.callback(CHUNK);
+			}
+			clock.pause();
+			rig.callback(CHUNK);
+			format!("paused after {} ticks", k)
+		}
+		_ => {
+			clock.start();
+			for _ in 0..k {
+				rig.callback(CHUNK);
+			}
+			clock.stop();
+			rig.callback(CHUNK);
+			format!("stopped after {} ticks (time reset to 0)", k)
+		}
+	};
+	let target = if variant == 1 { r.below(k as u64 + 1) } else { 0 };
+	let st = StartTime::ClockTime(ClockTime::from_ticks_u64(clock.id(), target));
+	let own = r.chance(0.5);
+	let frames: Vec<Frame> = vec![Frame::from_mono(DC); 64];
+	let mut settings = StaticSoundSettings::new().loop_region(..);
+	if own {
+		settings = settings.start_time(st);
+	}
+	let mut h = rig.mgr.play(StaticSoundData { sample_rate: SR, frames: frames.into(), settings, slice: None }).map_err(|_| "play")?;
+	if !own {
+		rig.callback(CHUNK);
+		h.pause(tween(0.0));
+		rig.callback(CHUNK);
+		rig.callback(CHUNK);
+		h.resume_at(st, tween(0.0));
+	}
+	let how = if own { "a sound whose start time is" } else { "resume_at" };
+	let mut pos0 = None;
+	for n in 0..r.usize_in(3, 10) {
+		let buf = rig.callback(CHUNK * r.usize_in(1, 2)).to_vec();
+		if buf.iter().any(|x| *x != 0.0) {
+			return Err(format!("{} clock time {} of a clock that is not running ({}): audible {} callbacks later (the clock has not reached the time: it is not ticking)", how, target, what, n + 1));
+		}
+		if !own && h.state() != PlaybackState::WaitingToResume {
+			return Err(format!("resume_at clock time {} of a clock that is not running ({}): state {:?} after {} callbacks, expected WaitingToResume until the clock runs", target, what, h.state(), n + 1));
+		}
+		let p = h.position();
+		if *pos0.get_or_insert(p) != p {
+			return Err(format!("{} clock time {} of a clock that is not running ({}): the position moved from {} to {} while waiting", how, target, what, pos0.unwrap(), p));
+		}
+	}
+	clock.start();
+	let mut heard = false;
+	for _ in 0..3 {
+		let buf = rig.callback(CHUNK).to_vec();
+		heard |= buf.iter().any(|x| *x != 0.0);
+	}
+	if !heard {
+		return Err(format!("{} clock time {} ({}): still silent 3 callbacks after the clock was started", how, target, what));
+	}
+	Ok(())
+}
+
+/// A sound on a paused sub-track (or on a running child of a paused track) is not processed, but it still takes its
+/// commands at the next callback - the handle shows Pausing / Resuming / Stopping - and a sound that is Stopped is
+/// still unloaded at the next callback. Track and sound commands are interleaved one per interval; callbacks of 1-3 chunks.
+fn paused_track_case(r: &mut Rng) -> Result<(), String> {
+	let mut rig = Rig::simple(SR, CHUNK);
+	let nested = r.chance(0.4);
+	let mut outer: TrackHandle = rig.mgr.add_sub_track(TrackBuilder::new().sound_capacity(1)).map_err(|_| "track")?;
+	let mut inner: Option<TrackHandle> = if nested { Some(outer.add_sub_track(TrackBuilder::new().sound_capacity(1)).map_err(|_| "inner")?) } else { None };
+	let frames: Vec<Frame> = vec![Frame::from_mono(DC); 64];
+	let data = StaticSoundData { sample_rate: SR, frames: frames.into(), settings: StaticSoundSettings::new().loop_region(..), slice: None };
+	let mut h = match inner.as_mut() {
+		Some(t) => t.play(data),
+		None => outer.play(data),
+	}
+	.map_err(|_| "play")?;
+	rig.callback(CHUNK);
+	let mut hist: Vec<String> = vec![];
+	let mut stopped_seen = false;
+	for _ in 0..r.usize_in(4, 12) {
+		let d = *r.pick(&DURS);
+		let before = h.state();
+		let mut ack: Option<[PlaybackState; 2]> = None;
+		match r.below(8) {
+			0 => {
+				outer.pause(tween(d));
+				hist.push(format!("track.pause({})", d));
+			}
+			1 => {
+				outer.resume(tween(d));
+				hist.push(format!("track.resume({})", d));
+			}
+			2 => {
+				let w = r.usize_in(1, 4);
+				outer.resume_at(StartTime::Delayed(Duration::from_secs_f64(w as f64 * chunk_dt())), tween(d));
+				hist.push(format!("track.resume_at(in {} chunks, {})", w, d));
+			}
+			3 => {
+				h.pause(tween(d));
+				hist.push(format!("sound.pause({})", d));
+				ack = Some([PlaybackState::Pausing, PlaybackState::Paused]);
+			}
+			4 => {
+				h.resume(tween(d));
+				hist.push(format!("sound.resume({})", d));
+				ack = Some([PlaybackState::Resuming, PlaybackState::Playing]);
+			}
+			5 => {
+				h.stop(tween(d));
+				hist.push(format!("sound.stop({})", d));
+				ack = Some([PlaybackState::Stopping, PlaybackState::Stopped]);
+			}
+			_ => hist.push("-".into()),
+		}
+		let chunks = r.usize_in(1, 3);
+		rig.callback(CHUNK * chunks);
+		hist.push(format!("cb({})", chunks));
+		let s = h.state();
+		if before == PlaybackState::Stopped {
+			if s != PlaybackState::Stopped {
+				return Err(format!("sound on a {}sub-track: state {:?} after Stopped [{}]", if nested { "nested " } else { "" }, s, hist.join(" ")));
+			}
+		} else if let Some(a) = ack {
+			if !a.contains(&s) {
+				return Err(format!("sound on a {}sub-track whose (outer) track is paused / resumed at will: after the command and one callback the handle shows {:?}, expected {:?} or {:?} - the command was not taken at the next callback [{}]", if nested { "nested " } else { "" }, s, a[0], a[1], hist.join(" ")));
+			}
+		}
+		let n = inner.as_ref().map(|t| t.num_sounds()).unwrap_or_else(|| outer.num_sounds());
+		if stopped_seen && n != 0 {
+			return Err(format!("sound on a {}sub-track: Stopped since the previous callback but its track still counts {} sound(s) (not unloaded while the track is paused or waiting) [{}]", if nested { "nested " } else { "" }, n, hist.join(" ")));
+		}
+		stopped_seen = s == PlaybackState::Stopped;
 	}
 	Ok(())
 }
